@@ -372,3 +372,41 @@ func kindName(n string) string {
 	}
 	return n
 }
+
+// FuzzDecode: native coverage-guided search (thorough tier). The first byte selects the entry point.
+// A recovered panic whose signature is not a listed finding fails the target; a fatal error kills the
+// fuzz worker, which the engine records as a crasher as well.
+func FuzzDecode(f *testing.F) {
+	for _, sf := range smallFiles() {
+		for i, e := range gen.EntriesFor(sf.kind) {
+			if i < 3 {
+				f.Add(byte(indexOfEntry(e)), sf.data)
+			}
+		}
+	}
+	for _, m := range gen.Magics {
+		f.Add(byte(0), append(append([]byte{}, m...), make([]byte, 40)...))
+	}
+	f.Fuzz(func(t *testing.T, sel byte, data []byte) {
+		if len(data) > 1<<16 {
+			return
+		}
+		entry := worker.Entries[int(sel)%len(worker.Entries)]
+		r := worker.Exec(worker.Req{Entry: entry, Input: data})
+		if r.Panic != "" {
+			key := fmt.Sprintf("%s/%s/%s", entry, r.PanicFrame, panicClass(r.Panic))
+			if pbt.Filter(rec, pbt.Failf(key, "x")) != nil {
+				t.Fatalf("%s panicked in %s: %s\n%s", entry, r.PanicFrame, r.Panic, r.PanicStack)
+			}
+		}
+	})
+}
+
+func indexOfEntry(e string) int {
+	for i, x := range worker.Entries {
+		if x == e {
+			return i
+		}
+	}
+	return 0
+}
